@@ -31,6 +31,7 @@ type verifDCS struct {
 	FaultBudget int // failing operations left
 	FaultOnReadsOnly bool
 	Writes      []string
+	Faulted     []string // injected failures, as "op path"
 	Quiet       bool
 	// Checkpoint is called after every mutating operation.
 	Checkpoint func(op, path string)
@@ -68,6 +69,7 @@ func (d *verifDCS) fault(op, p string, mutating bool) bool {
 	}
 	if verifnd.Choose("dcsfault."+op+"."+p, 2) == 1 {
 		d.FaultBudget--
+		d.Faulted = append(d.Faulted, op+" "+p)
 		if !d.Quiet {
 			verifnd.Event("dcs-fault " + op + " " + p)
 		}
